@@ -412,17 +412,8 @@ func runC22(c *Ctx) {
 	kPT := func(h string) string { return `~key("consensusStates/{s}/processedTime", ` + h + `)` }
 	kPH := func(h string) string { return `~key("consensusStates/{s}/processedHeight", ` + h + `)` }
 	kIt := "append(conv:bytes(\"iterateConsensusStates\"), _)"
-	// every function that stores a consensus state stores the three metadata entries for that height
-	for _, fn := range []string{tm + ".ClientState.UpdateState", tm + ".ClientState.initialize", tm + ".ClientState.CheckSubstituteAndUpdateState", tm + ".ClientState.VerifyUpgradeAndUpdateState"} {
-		rr := c.Run(which, fn)
-		if rr == nil {
-			continue
-		}
-		c.CheckRets(which, "C22/pairing/set", rr, c.HasAtom(which, nil, set+"(_, "+kCons("_")+", _)"), 1, nil,
-			Req{Name: "consensus-state-with-all-metadata", Any: all(
-				set+"(?s, "+kCons("?h")+", _)", set+"(?s, "+kPT("?h")+", _)", set+"(?s, "+kPH("?h")+", _)", set+"(?s, "+kIt+", "+kCons("?h")+")",
-			)})
-	}
+	_, _, _, _, _ = set, kCons, kPT, kPH, kIt
+	c.metadataPairing(which, "C22")
 	for _, fn := range []string{tm + ".ClientState.pruneOldestConsensusState", tm + ".PruneAllExpiredConsensusStates"} {
 		rr := c.Run(which, fn)
 		if rr == nil {
@@ -506,12 +497,55 @@ func runC22(c *Ctx) {
 
 // ---------------------------------------------------------------- C23
 
+// metadataPairing: every tendermint function that stores a consensus state stores,
+// for the same store and height, the processed time, the processed height and the
+// iteration key (the neighbour lookups of the monotonic-time check walk the latter),
+// and the table of such functions is complete.
+func (c *Ctx) metadataPairing(which, pfx string) {
+	set := "call:iface:*KVStore.Set"
+	kCons := func(h string) string { return `~key("consensusStates/{s}", ` + h + `)` }
+	kPT := func(h string) string { return `~key("consensusStates/{s}/processedTime", ` + h + `)` }
+	kPH := func(h string) string { return `~key("consensusStates/{s}/processedHeight", ` + h + `)` }
+	kIt := "append(conv:bytes(\"iterateConsensusStates\"), _)"
+	writers := []string{tm + ".ClientState.UpdateState", tm + ".ClientState.initialize", tm + ".ClientState.CheckSubstituteAndUpdateState", tm + ".ClientState.VerifyUpgradeAndUpdateState"}
+	for _, fn := range writers {
+		rr := c.Run(which, fn)
+		if rr == nil {
+			continue
+		}
+		c.CheckRets(which, pfx+"/pairing/set", rr, c.HasAtom(which, nil, set+"(_, "+kCons("_")+", _)"), 1, nil,
+			Req{Name: "consensus-state-with-all-metadata", Any: all(
+				set+"(?s, "+kCons("?h")+", _)", set+"(?s, "+kPT("?h")+", _)", set+"(?s, "+kPH("?h")+", _)", set+"(?s, "+kIt+", "+kCons("?h")+")",
+			)})
+	}
+	// completeness of the table: callers of setConsensusState inside the package
+	if sites, ok := c.CallersOf(which, tm+".setConsensusState"); ok {
+		allowed := map[string]bool{}
+		for _, w := range writers {
+			allowed[w] = true
+		}
+		n := 0
+		for _, s := range sites {
+			n++
+			if !allowed[s.Caller] {
+				c.bad(pfx+"/pairing/writers", s.Caller, s.Where, "stores a tendermint consensus state but is not in the table of functions checked for metadata pairing")
+			}
+		}
+		if n >= len(writers) {
+			c.ok(pfx+"/pairing/writers", tm+".setConsensusState", "", fmt.Sprintf("%d call sites, all in the checked writers", n))
+		} else {
+			c.bad(pfx+"/pairing/writers", tm+".setConsensusState", "", fmt.Sprintf("only %d call sites found, expected %d", n, len(writers)))
+		}
+	}
+}
+
 func runC23(c *Ctx) {
 	const which = "main"
 	e := c.Engine(which)
 	if e == nil {
 		return
 	}
+	c.metadataPairing(which, "C23")
 	rr := c.Run(which, tm+".ClientState.CheckForMisbehaviour")
 	if rr == nil {
 		return
